@@ -22,7 +22,7 @@ LEVEL = {
                 note=BOOK_NOTE),
     "C02": dict(engine="book", design_ref="DESIGN.md 6/C02",
                 technique="Lean 4 invariant proof over all operation histories (every published view = recomputation from the order list, incl. wrapping level probes) + model-free audit recomputing every view from get_orders() after every operation",
-                text="published_data_equals_resting_orders / audit_c02_passes: in every state reachable by any valid fault-free history (any tick, any level count whose probes stay below 2^32: ticks <= 10, n <= 24 by probe_range_ok) touch prices with sentinels, totals, touch volume/count, every level pair, level-1/2 and the mid equal Spec.Views of the order list; aggregates_exact, queue_empty_iff. never_crossed / audit_uncrossed_passes: on a book created with trading enabled and never disabled the best bid is strictly below the best ask whenever both sides are non-empty (every history). Per run the same two audit predicates are evaluated on the real implementation's own order list after every op.",
+                text="published_data_equals_resting_orders / published_data_equals_resting_orders_in_simulations (the same for every book of every environment state reachable under any agents and any permutation) / audit_c02_passes: in every state reachable by any valid fault-free history (any tick, any level count whose probes stay below 2^32: ticks <= 10, n <= 24 by probe_range_ok) touch prices with sentinels, totals, touch volume/count, every level pair, level-1/2 and the mid equal Spec.Views of the order list; aggregates_exact, queue_empty_iff. never_crossed / audit_uncrossed_passes: on a book created with trading enabled and never disabled the best bid is strictly below the best ask whenever both sides are non-empty (every history). Per run the same two audit predicates are evaluated on the real implementation's own order list after every op.",
                 note=BOOK_NOTE),
     "C03": dict(engine="book", design_ref="DESIGN.md 6/C03",
                 technique="Lean 4 proofs by induction over operations and histories (log append-only, new records well formed against the table, per-order volume conservation, counter = sum of new records), transferred from the reference engine through the refinement + ledger audit on real output",
